@@ -710,6 +710,8 @@ def run_scenario(chk, llb, model, sc, idx, generate=None):
             rec["must_T"], rec["must_S"], rec["hints"] = oracle(prev, snaps, pats, set(produced), prev_pats)
             rec["patterns"] = pats
         records.append(rec)
+        if rc != 0 and sc.get("ancestor_links"):
+            break       # a build that does not finish: the remaining steps would each wait for the timeout again
         # the baseline of the next step is what is on disk AFTER this build (mkdir commands may have created directories)
         prev = observe_disk(sb)[0] if produced else snaps
         k += 1
@@ -1111,6 +1113,8 @@ def run(chk):
         sc = gen_scenario(rng, family, pats, idx)
         scen.append((sc, make_generator(rng, family, pats)))
     for sc, g in scen:
+        if sc.get("ancestor_links") and any(v["key"] == "ancestor-links-do-not-terminate" for v in chk.violations):
+            continue    # already found: do not wait for the timeout in every further scenario of this family
         try:
             records = run_scenario_live(chk, llb, model, sc, idx, g)
         except RuntimeError as e:
